@@ -52,38 +52,67 @@ func (m *Model) RunKinds(s *Sink, rule string) {
 	if nAddr == 0 {
 		s.OK(rule, fk+"|conversion is by value", m.Pos(fn.Pos()), "no reflect address accessor (Pointer, UnsafePointer, UnsafeAddr, Addr) is reachable from NativeToObject")
 	}
-	par := fn.Params[0]
 	gotTypes := map[string]string{}
 	gotKinds := map[int64]bool{}
 	nilCase := false
-	for _, b := range fn.Blocks {
-		iff, ok := b.Instrs[len(b.Instrs)-1].(*ssa.If)
-		if !ok {
-			continue
+	// the conversion and the helpers of its package it hands the value on to unchanged (scalars / composites / pointers
+	// split into functions of their own): each is read with its own parameter in the role of the value
+	type fp struct {
+		fn  *ssa.Function
+		par *ssa.Parameter
+	}
+	work := []fp{{fn, fn.Params[0]}}
+	seenFP := map[*ssa.Function]bool{fn: true}
+	var convFns []*ssa.Function
+	for wi := 0; wi < len(work); wi++ {
+		cur := work[wi]
+		convFns = append(convFns, cur.fn)
+		for _, b := range cur.fn.Blocks {
+			for _, in := range b.Instrs {
+				c, ok := in.(*ssa.Call)
+				if !ok || c.Call.StaticCallee() == nil || !inPkg(c.Call.StaticCallee(), "object") || seenFP[c.Call.StaticCallee()] || c.Call.StaticCallee().Blocks == nil {
+					continue
+				}
+				for i, a := range c.Call.Args {
+					if a == ssa.Value(cur.par) && i < len(c.Call.StaticCallee().Params) && len(c.Call.StaticCallee().Params) == 1 {
+						seenFP[c.Call.StaticCallee()] = true
+						work = append(work, fp{c.Call.StaticCallee(), c.Call.StaticCallee().Params[i]})
+					}
+				}
+			}
 		}
-		switch c := iff.Cond.(type) {
-		case *ssa.Extract:
-			ta, ok := c.Tuple.(*ssa.TypeAssert)
-			if !ok || c.Index != 1 || ta.X != ssa.Value(par) {
+	}
+	for _, cur := range work {
+		par := cur.par
+		for _, b := range cur.fn.Blocks {
+			iff, ok := b.Instrs[len(b.Instrs)-1].(*ssa.If)
+			if !ok {
 				continue
 			}
-			// the case block: what object does it return, and is its payload the asserted value (converted)?
-			var val ssa.Value
-			for _, r := range *ta.Referrers() {
-				if ex, ok := r.(*ssa.Extract); ok && ex.Index == 0 {
-					val = ex
+			switch c := iff.Cond.(type) {
+			case *ssa.Extract:
+				ta, ok := c.Tuple.(*ssa.TypeAssert)
+				if !ok || c.Index != 1 || ta.X != ssa.Value(par) {
+					continue
 				}
-			}
-			res := caseResult(b.Succs[0], val, par, ta.AssertedType)
-			gotTypes[types.TypeString(ta.AssertedType, nil)] = res
-		case *ssa.BinOp:
-			if c.Op == token.EQL && c.X == ssa.Value(par) {
-				if k, ok := c.Y.(*ssa.Const); ok && k.IsNil() {
-					nilCase = strings.HasPrefix(caseResult(b.Succs[0], nil), "*object.Nil")
+				// the case block: what object does it return, and is its payload the asserted value (converted)?
+				var val ssa.Value
+				for _, r := range *ta.Referrers() {
+					if ex, ok := r.(*ssa.Extract); ok && ex.Index == 0 {
+						val = ex
+					}
 				}
-			}
-			if v, k, ok := reflectKindOfValue(c.X, c.Y); ok && v == ssa.Value(par) && c.Op == token.EQL {
-				gotKinds[k] = true
+				res := caseResult(b.Succs[0], val, par, ta.AssertedType)
+				gotTypes[types.TypeString(ta.AssertedType, nil)] = res
+			case *ssa.BinOp:
+				if c.Op == token.EQL && c.X == ssa.Value(par) {
+					if k, ok := c.Y.(*ssa.Const); ok && k.IsNil() {
+						nilCase = strings.HasPrefix(caseResult(b.Succs[0], nil), "*object.Nil")
+					}
+				}
+				if v, k, ok := reflectKindOfValue(c.X, c.Y); ok && v == ssa.Value(par) && c.Op == token.EQL {
+					gotKinds[k] = true
+				}
 			}
 		}
 	}
@@ -119,10 +148,12 @@ func (m *Model) RunKinds(s *Sink, rule string) {
 	}
 	// fall-through returns nil
 	last := false
-	for _, b := range fn.Blocks {
-		if r, ok := b.Instrs[len(b.Instrs)-1].(*ssa.Return); ok {
-			if k, ok := r.Results[0].(*ssa.Const); ok && k.IsNil() {
-				last = true
+	for _, cf := range convFns {
+		for _, b := range cf.Blocks {
+			if r, ok := b.Instrs[len(b.Instrs)-1].(*ssa.Return); ok {
+				if k, ok := r.Results[0].(*ssa.Const); ok && k.IsNil() {
+					last = true
+				}
 			}
 		}
 	}
